@@ -737,12 +737,60 @@ def check_mut_escape(ctx, F, n_cursor_unsafe):
     c17.check_invariant(ctx, F)
 
 
+def check_validators_fetch_once(ctx, F):
+    """The validators are what the TRUSTED-DATA rows rest on: a table that passed one is assumed to satisfy its invariants.  They
+    receive their data through user code (`Borrow::borrow` on the items of a user iterator, `AsRef::as_ref`, `Deref::deref` on
+    values of a generic type).  That user code may answer differently each time it is asked, so a validator must read every
+    value exactly once: what it checks is then what it hands on.  Rule: on no path does a validator apply a view function
+    twice to the same receiver of generic type."""
+    from vlib import anchors
+    vals = anchors.validators(F)
+    n = 0
+    for role_name, b in sorted(vals.items()):
+        if b is None:
+            continue
+        key = 'R8/validator-fetches-once/' + role_name
+        role = 'the validator reads every user-provided value once'
+        bodies = [b] + [cb for cb in F.closures_of(b)]
+        worst = None
+        n_fetch = 0
+        for body in bodies:
+            ev, paths = rules.evaluate(body)
+            for r in paths or []:
+                cnt = {}
+                for e in r.events:
+                    if e['kind'] != 'call' or e['callee'] not in _VIEW_FNS:
+                        continue
+                    c = e['fn']
+                    a0 = c['args'][0] if c and c.get('args') else None
+                    ty = F.types[a0['ty']] if isinstance(a0, dict) and 'ty' in a0 else {}
+                    if ty.get('k') not in ('param', 'alias', 'proj', 'projection', 'opaque'):
+                        continue      # a concrete std type: its views are stable
+                    n_fetch += 1
+                    k = (e['callee'].split('::')[-1], e['args_val'][0])
+                    cnt[k] = cnt.get(k, 0) + 1
+                for (fn, recv), v in cnt.items():
+                    if v >= 2:
+                        worst = (fn, recv, v, body)
+        ctx.touch(b)
+        n += 1
+        if worst:
+            fn, recv, v, body = worst
+            ctx.bad('R8', role, b.defpath, '`%s()` is called %d times on the same value (%s) of a generic type: the value that is validated and the value that is handed on may differ for a user type whose `%s` answers differently each time, so a table that never passed the validation reaches the unchecked accesses of the models' % (
+                fn, v, sym.show(recv)[:60], fn), key=key, loc=rules.loc(body))
+        else:
+            ctx.ok('R8', role, b.defpath, '%d view call(s) on generic receivers, none repeated on a path' % n_fetch, key=key)
+    if n == 0:
+        ctx.unresolved('R8', 'the validator reads every user-provided value once', 'stream::model::categorical', 'no validator resolved', key='R8/validator-fetches-once/floor')
+
+
 def run(ctx):
     F = ctx.F
     trusted_rows = check_sites(ctx, F)
     c13.check_precision_changers(ctx, F)
     c19.check_inferred_probability(ctx, F)
     check_strict_producers(ctx, F)
+    check_validators_fetch_once(ctx, F)
     n_cursor_unsafe = sum(1 for s in unsafe_sites(F) if s['body'].file.endswith('backends.rs'))
     check_mut_escape(ctx, F, n_cursor_unsafe)
     check_unsafe_impls(ctx, F)
